@@ -4,7 +4,7 @@ H = vf.VERIF + "/checks/C05/harness.cpp"
 SCHED = [vf.VERIF + "/engine/sched/sched.cpp", vf.VERIF + "/engine/sched/log_stub.cpp"]
 REPO_SRCS = ["base/catch_throw.cpp", "base/backtrace.cpp"]
 # (scenario, min, max)
-POOL = [(0,0,1),(0,1,1),(0,1,2),(1,1,1),(1,0,1),(1,0,2),(2,1,1),(2,0,2),(2,2,2),(3,0,1),(3,0,2),(4,1,1),(4,0,2),(5,1,1),(5,0,1),(6,1,1),(6,0,2)]
+POOL = [(0,0,1),(0,1,1),(0,1,2),(1,1,1),(1,0,1),(1,0,2),(2,1,1),(2,0,2),(2,2,2),(3,0,1),(3,0,2),(4,1,1),(4,0,2),(5,1,1),(5,0,1),(6,1,1),(6,0,2),(7,1,1),(7,0,1)]
 WT = [(100,0,1),(101,0,1),(102,0,1)]
 def cmds(exe, bound, tagp, only):
     c = [("%s:s%d_%d_%d" % ((tagp,) + s), [exe, str(s[0]), str(s[1]), str(s[2]), str(bound)]) for s in POOL + WT]
